@@ -84,7 +84,7 @@ def check_one(ctx, cfg, kind, rng, drv, seed):
         ctx.violation("%s: dataset times coordinate differs from get_times() afterwards" % cfg.name, payload, cls="dataset-times")
     if "readMeta" in pre and outs[pre.index("readMeta")][1] is not None:
         ctx.violation("%s: meta_data filled before any coordinate computation" % cfg.name, payload, cls="meta-early")
-    drv.append(("c12 %d %d %d %d %s" % (cfg.cfg + (",".join(h),)), outs, h, payload))
+    drv.append(("c12 %d %d %d %d %s" % (cfg.cfg + (",".join(acc.model_op(o) for o in h),)), outs, h, payload))
     days = [t // 86400000 for t in final]
     ctx.case((cfg.fmt, cfg.start, tuple(cfg.nums), trig, tuple(pre)),
              nontrivial=(days[0] != days[-1]) or len(want[1]) > 0 or cfg.applies(),
